@@ -15,13 +15,16 @@ COMMON_NOTE = ("Trusted: Lean 4.33 kernel + axioms propext/Classical.choice/Quot
 # property -> (claimed?, design_ref, technique, text, extra note)
 CLAIMS = {
     "C03": dict(
-        technique="Lean 4 refinement of the engine model to the documented conversion rules + theorems about the time-grid specification and ProjectSettings as a state machine; correspondence: step-level trace refinement (mode B), documented-conversion and aggregation oracles, grid and settings-history comparison (mode A)",
+        technique="Lean 4 refinement of the engine model to the documented conversion rules + theorems about the time-grid specification, ProjectSettings as a state machine and a closed-loop model of a whole simulation; correspondence: step-level trace refinement (mode B), whole-trajectory comparison with the closed-loop model, documented-conversion and aggregation oracles, grid and settings-history comparison (mode A)",
         text="Proof: (conversion) the engine model's cached fraction equals the documented rule written separately (Spec.fracRate p*dt/T, Spec.fracDuration dt/(d*T), Spec.amountNumber N*dt/T shared in proportion to source sizes; "
              "a source emits exactly N*dt/T), flows are stock x fraction when the fractions of a compartment sum to <= 1 and stock x fraction / sum otherwise (flow_probability/duration/number, flow_normalised), for every net and state; "
              "(grid) grid_exact/grid_length/grid_last_ge/grid_last_first/grid_prefix and the settings state machine (update_end_snapped, update_end_first) are proved for all start/end/dt over exact rationals; the implementation's "
              "time vector is compared entry-wise with the model on a table of start/end pairs x step sizes (incl. non-representable and non-dividing) "
-             "plus a seeded random stream. The unit-conversion half of C03 is decided by the engine correspondence (mode B) and the documented-conversion oracle.",
-        note="float rounding of start+k*dt vs numpy.linspace is measured (1e-9), not proved.",
+             "plus a seeded random stream. The unit-conversion half of C03 is decided by the engine correspondence (mode B) and the documented-conversion oracle. "
+             "(independent re-implementation) Closed.simulate runs whole simulations from the specification alone (data, calibration factors, parsed functions, limits, aggregations, transfers, initial state); "
+             "simulate_is_process / closed_total / closed_nonneg / closed_jempty / evalPars_fixpoint / evalPars_clipped / evalPars_static / simulateN_prefix are proved for every specification and run length, "
+             "and every stock row, link flow and parameter value of generated models is compared with it at every time index.",
+        note="float rounding of start+k*dt vs numpy.linspace is measured (1e-9), not proved. Closed loop: programs, derivative parameters, skip windows, several population types and transcendental functions are outside Closed.simulate (counted, not compared); exact rationals are cut at a bit budget and the computed prefix is compared.",
         design="8.C03"),
     "C06": dict(
         technique="Lean 4 theorems about the TimeSeries interpolation model (Atomica.Series) + correspondence with TimeSeries.interpolate/insert (mode A)",
